@@ -806,7 +806,11 @@ class StructuredFormula(Structured[SimpleFormula], Formula):
         """
         return cast(
             SimpleFormula,
-            self._map(lambda formula: formula.differentiate(*wrt, use_sympy=use_sympy)),
+            self._map(
+                lambda formula: formula.differentiate(*wrt, use_sympy=use_sympy),
+                # (the gradient of a formula is a formula, not a bare container)
+                as_type=self.__class__,
+            ),
         )
 
     # Ensure pickling never includes context
